@@ -5,7 +5,7 @@ TRUST = ('Trusted: rustc nightly MIR construction and name resolution; the class
 CLAIMS = {
     'C16': {
         'text': 'Static: no RefCell of a thread-local cache is re-borrowed while a conflicting borrow may be live on any call path (exact for "already borrowed" panics), '
-                'and explicit panic sites on cache paths are classified; arithmetic overflow and user-code panics are not decided.',
+                'explicit panic sites on cache paths are classified, and every library MemoryEstimator returns at least size_of::<Self>() (what makes the checked `estimate - size_of_val` safe); arithmetic overflow on absurd sizes and user-code panics are not decided.',
         'design_ref': 'DESIGN.md section 5 C16', 'note': TRUST, 'technique': 'interprocedural guard held-set dataflow over MIR (RefCell classes) + panic-site classification',
     },
     'C17': {
@@ -30,17 +30,17 @@ CLAIMS.update({
     'C04': {
         'text': 'Static: overflow test agrees with its placement (len > limit after insertion / len >= limit before), lies on every storing path; under the overflow oracle every '
                 'flavour x policy path removes at most one entry and removes it from store and queue together; stores leave key in both; random victim is a queue position; '
-                're-stored keys are de-duplicated. The numeric bound over histories is the paper induction over these premises.',
+                're-stored keys are de-duplicated. Each run also plants an off-by-one in the facts of every overflow test and requires a report. The numeric bound over histories is the paper induction over these premises.',
         'design_ref': 'DESIGN.md section 5 C04', 'note': TRUST, 'technique': 'configuration-specialised path-sensitive effect totals over MIR + comparison normal forms + dominance',
     },
     'C05': {
         'text': 'Static: oversize and fit tests in exact normal form and placed correctly; oversize leaves no net entry and skips eviction; "fits" evicts nothing; each loop iteration '
-                'removes one victim from store and queue or leaves the loop; estimator impls count capacity and recurse into each component. Numeric totals are not decided.',
+                'removes one victim from store and queue or leaves the loop; the tests measure the value component; every library estimator, normalised to a polynomial over size_of / capacity / recursive estimates, equals the reviewed formula (inline size + owned heap capacity). Each run also plants an off-by-one in the facts of every memory test and requires a report. Numeric totals are not decided.',
         'design_ref': 'DESIGN.md section 5 C05', 'note': TRUST, 'technique': 'comparison normal forms with role resolution + oracle-driven path exploration + impl obligations',
     },
     'C06': {
         'text': 'Static: expiry test is AGE_SECS >= TTL on whole seconds; for every flavour x configuration, expired => nothing served, own key purged from store and queue; '
-                'fresh => served, nothing removed; birth time written only at store. Wall-clock behaviour is not decided.',
+                'fresh => served, nothing removed; birth time written only at store. An off-by-one is planted in the facts of every expiry test on each run. Wall-clock behaviour is not decided.',
         'design_ref': 'DESIGN.md section 5 C06', 'note': TRUST, 'technique': 'comparison normal form + oracle-driven scenario table over specialised MIR paths',
     },
     'C07': {
@@ -50,12 +50,12 @@ CLAIMS.update({
     },
     'C08': {
         'text': 'Static: LFU/ARC/TLRU hits count once and (ARC/TLRU) re-queue; counters start at 0; selectors scan the whole queue replacing on <; score is the documented product; '
-                'recency polarity and exponent are judged where residents compete. Float ties / age interval not decided.',
+                'each factor is in a documented abstract normal form (no floor/round/other operation on hits, rank or age); recency polarity and exponent are judged where residents compete. A reversed LFU scan is planted on every run. Float ties / age interval not decided.',
         'design_ref': 'DESIGN.md section 5 C08', 'note': TRUST, 'technique': 'effect table + expression-tree factor/polarity analysis of the selectors',
     },
     'C15': {
         'text': 'Static: exactly one hit/miss record on every lookup path of every flavour x configuration x scenario, hit iff a value is returned; counters are atomic RMW on the '
-                'same-named field; registry reset/get touch one entry; generated code registers the static it passes to the cache under the right name.',
+                'same-named field; registry reset/get touch one entry and the registry table is modified in place under its write lock; generated code registers the static it passes to the cache under the right name and never calls a CacheStats method itself. A hit recorded as a miss is planted on every run.',
         'design_ref': 'DESIGN.md section 5 C15', 'note': TRUST, 'technique': 'path-sensitive counting over specialised MIR + shape rules on stats code + wrapper registration rule',
     },
 })
@@ -69,7 +69,7 @@ CLAIMS.update({
     },
     'C02': {
         'text': 'Static: each parameter (receiver first) contributes exactly one Debug/to_cache_key part in order, parts joined by a separator that cannot occur unquoted in a Debug '
-                'rendering; default key is format!("{:?}", self). Injectivity of std Debug is trusted.',
+                'rendering; default key is format!("{:?}", self) - the format_args! byte template is decoded: one placeholder, no precision - and no type has a direct CacheableKey impl. Injectivity of std Debug is trusted.',
         'design_ref': 'DESIGN.md section 5 C02', 'note': TRUST, 'technique': 'key-builder shape rule over the type-checked expansion of a fixture corpus',
     },
     'C03': {
@@ -79,7 +79,7 @@ CLAIMS.update({
     },
     'C09': {
         'text': 'Static: for every fixture whose resolved return type is Result (six spellings x flavours x memory) and no cache_if, the store is Ok-guarded; core insert_result* store only in '
-                'the Ok arm. Alias spellings are a recorded known finding.',
+                'the Ok arm, on every path through it, and have no other cache effect; functions produced by macro_rules! (return type as a ty fragment) are part of the corpus. Alias spellings are a recorded known finding.',
         'design_ref': 'DESIGN.md section 5 C09', 'note': TRUST, 'technique': 'resolved-type vs generated-store agreement on the fixture corpus + control-dependence in core',
     },
     'C10': {
@@ -94,7 +94,7 @@ CLAIMS.update({
     },
     'C12': {
         'text': 'Static: registry tables agree between register and the three lookups, every looked-up callback is invoked and counted once, generated code registers name/metadata/clear '
-                'callback from the attribute lists before the first lookup, and the clear callback empties store and queue of its own function only.',
+                'callback from the attribute lists before the first lookup, the clear callback empties store and queue of its own function only, and registry tables are modified in place under their write lock (never a modified copy written back).',
         'design_ref': 'DESIGN.md section 5 C12', 'note': TRUST, 'technique': 'table-agreement (sibling) rules on registry MIR + registration/callback shape rules on fixtures',
     },
     'C13': {
